@@ -61,13 +61,21 @@ def install():
 SINGLETONS = ["ActiveFabric", "FiberThreadEvent", "InstrumentionWriter"]
 
 
+def fresh_locks(holder):
+    """replace every lock-like attribute of `holder` (real ones made at import time, or stand-ins left
+    over from the previous execution) by a fresh stand-in bound to the ACTIVE scheduler"""
+    for k, v in list(vars(holder).items()):
+        tn = type(v).__name__
+        if tn in ("lock", "RLock", "_RLock") or isinstance(v, (sched.CLock, sched.CRLock)):
+            setattr(holder, k, sched.CRLock() if "RLock" in tn else sched.CLock())
+
+
 def fix_singleton_locks():
     for m in MODULES:
-        for name, val in vars(m).items():
+        fresh_locks(m)
+        for name, val in list(vars(m).items()):
             if isinstance(val, singleton.SingletonDecorator):
-                for k, v in list(vars(val).items()):
-                    if type(v).__name__ in ("lock", "RLock", "_RLock") or isinstance(v, (sched.CLock, sched.CRLock)):
-                        setattr(val, k, sched.CRLock() if "R" in type(v).__name__ else sched.CLock())
+                fresh_locks(val)
 
 
 def reset():
